@@ -106,6 +106,13 @@ const PACK_BUILD: Spec = Spec {
         ("force-color", None, FK::Bool), ("insecure-registry", None, FK::Val), ("layout-repo-dir", None, FK::Val), ("sbom-output-dir", None, FK::Val), ("layout", None, FK::Bool), ("disable-system-buildpacks", None, FK::Bool),
     ],
 };
+/// the value of --path / -p of a `pack build` command line as pack's own grammar sees it (used by the stand-in, so that a
+/// user string that merely looks like `-p` is not mistaken for the option)
+pub fn pack_build_path(args_after_build: &[String]) -> Option<String> {
+    let p = pflag_parse(args_after_build, &PACK_BUILD).ok()?;
+    p.flags.iter().rev().find(|f| f.0 == "path").and_then(|f| f.1.clone())
+}
+
 const PACK_SBOM: Spec = Spec { interspersed: true, flags: &[("output-dir", Some('o'), FK::Val), ("remote", None, FK::Bool), ("verbose", Some('v'), FK::Bool), ("quiet", Some('q'), FK::Bool), ("no-color", None, FK::Bool), ("timestamps", None, FK::Bool)] };
 const DOCKER_RUN: Spec = Spec {
     interspersed: false,
@@ -184,6 +191,8 @@ pub struct Case {
     containers: Vec<CCfg>,
     run_shell: Option<String>,
     rebuild: Option<BCfg>,
+    /// the (one) pack build process is killed by a signal: the test fails — and pack must not be invoked a second time
+    pack_killed: bool,
 }
 
 fn bcfg() -> impl Strategy<Value = BCfg> {
@@ -204,7 +213,9 @@ fn ccfg() -> impl Strategy<Value = CCfg> {
         proptest::option::of(proptest::collection::vec(tricky(), 0..5)),
         proptest::collection::vec((env_key(), tricky()), 0..6),
         proptest::collection::vec(prop_oneof![Just(80u16), Just(8080), Just(1), Just(65535), any::<u16>()], 0..4),
-        proptest::collection::vec(("/[a-z -]{1,8}".prop_filter("csv", |s| csv_safe(s)), "/[a-z=. -]{1,8}".prop_filter("csv", |s| csv_safe(s))), 0..3),
+        // bind mounts: made-up sources, and (<MNT> = a directory of the scenario) sources that EXIST on the host under a
+        // non-canonical spelling — through a symbolic link, with a `..` — and denote the same directory
+        proptest::collection::vec((prop_oneof![3 => "/[a-z -]{1,8}".prop_filter("csv", |s| csv_safe(s)), 1 => Just("<MNT>/real".to_string()), 1 => Just("<MNT>/link".to_string()), 1 => Just("<MNT>/real/../real".to_string())], "/[a-z=. -]{1,8}".prop_filter("csv", |s| csv_safe(s))), 0..4),
         proptest::option::of(tricky()),
         prop_oneof![1 => Just(0u16), 3 => any::<u16>()],
     )
@@ -212,7 +223,7 @@ fn ccfg() -> impl Strategy<Value = CCfg> {
 }
 
 fn case_strategy() -> impl Strategy<Value = Case> {
-    (bcfg(), proptest::collection::vec(ccfg(), 0..3), proptest::option::of(tricky()), proptest::option::weighted(0.3, bcfg()), any::<bool>()).prop_map(|(build, mut containers, run_shell, mut rebuild, same_app)| {
+    (bcfg(), proptest::collection::vec(ccfg(), 0..3), proptest::option::of(tricky()), proptest::option::weighted(0.3, bcfg()), any::<bool>(), proptest::bool::weighted(0.06)).prop_map(|(build, mut containers, run_shell, mut rebuild, same_app, pack_killed)| {
         if let Some(rb) = rebuild.as_mut() {
             // the rebuild's preprocessor makes different edits than the first build's
             rb.pre_tag = 1;
@@ -228,7 +239,7 @@ fn case_strategy() -> impl Strategy<Value = Case> {
                 }
             }
         }
-        Case { build, containers, run_shell, rebuild }
+        Case { build, containers, run_shell, rebuild, pack_killed }
     })
 }
 
@@ -251,7 +262,12 @@ fn scenario_json(c: &Case, manifest_abs_app: &str) -> Value {
     if let Some(rb) = &c.rebuild {
         steps.push(json!({"rebuild": {"cfg": bcfg_json(rb, manifest_abs_app), "steps": []}}));
     }
-    json!({"build": {"cfg": bcfg_json(&c.build, manifest_abs_app), "steps": steps}})
+    let mut v = json!({"build": {"cfg": bcfg_json(&c.build, manifest_abs_app), "steps": steps}});
+    if c.pack_killed {
+        v["pack_killed"] = json!(true);
+        v["fail_flavour"] = json!(5); // killed by SIGKILL
+    }
+    v
 }
 
 fn case_json(c: &Case) -> Value {
@@ -394,10 +410,28 @@ fn check(ctx: &Ctx, scratch: &Path, c: &Case) -> Check {
 
 fn check_pure(scratch: &Path, c: &Case) -> Check {
     let root = scratch.join(format!("c-{:016x}-{}", hash_of(&case_json(c).to_string()), crate::core::uniq()));
+    // <MNT> in bind-mount sources = the scenario's mnt directory (holds `real/` and `link -> real`)
+    let abs_mnt = root.join("manifest dir/mnt").to_string_lossy().to_string();
+    let c = &{
+        let mut c2 = c.clone();
+        for cc in c2.containers.iter_mut() {
+            for (src, _) in cc.mounts.iter_mut() {
+                *src = src.replace("<MNT>", &abs_mnt);
+            }
+        }
+        c2
+    };
     let abs_app = root.join("manifest dir/fixtures/app").to_string_lossy().to_string();
     let scn = scenario_json(c, &abs_app);
-    let o = trrun::run_scenario(&root, &scn, None, "");
+    let o = trrun::run_scenario(&root, &scn, if c.pack_killed { Some(1) } else { None }, "");
     let r = (|| -> Check {
+        if c.pack_killed {
+            // the first external command (pack build) was killed by a signal: the test fails, and the configuration still
+            // results in ONE pack build invocation — not in a silent second attempt
+            let n = o.log.iter().filter(|e| e["prog"] == "pack" && argv(e).first().map(String::as_str) == Some("build")).count();
+            ensure!(n == 1, "C17:pack-build-count", "{n} pack build invocations after the first one was killed by a signal");
+            return Ok(());
+        }
         ensure!(o.code == Some(0), "C17:scenario-did-not-complete", "exit {:?}: {}", o.code, o.stderr.chars().take(400).collect::<String>());
         // expected sequence of user-visible commands
         let mut image: Option<String> = None;
@@ -514,7 +548,7 @@ fn nontrivial(c: &Case) -> bool {
 }
 
 pub fn run(ctx: &Ctx) {
-    ctx.set_rule("build configurations (builder name, relative/absolute app path, with/without a preprocessor that adds a file, removes a file and makes a read-only fixture file writable and extends it in place, 0..5 buildpack references, 0..6 env pairs) and 0..2 container configurations (entrypoint, command vector, env, port sets, bind mounts) plus run_shell_command / shell_exec strings and an optional rebuild, with strings weighted towards leading '-'/'--', option look-alikes (--rm, --env, -e, --, --name, --entrypoint=/bin/sh, --trust-builder=false), spaces, '=', quotes, newlines, shell metacharacters, Unicode and the empty string; the configuration objects are built by calling their setters in a generated order (also: app_dir set after the preprocessor on a config created for another fixture, envs() instead of env(), an entrypoint set twice); executed in a worker through TestRunner::build -> start_container / shell_exec / run_shell_command / rebuild with stand-in pack/docker recording argv bytes. Oracle: a reference parser of the pflag grammars of `pack build` (interspersed flags; value flags consume the next token) and `docker run|exec|logs|port|rm|rmi|volume rm` (run/exec stop flag parsing at the first positional) decodes every recorded command line; the decoded builder, app path (fixture itself, or a different directory whose content = fixture + the preprocessor's edits, fixture snapshot unchanged), buildpacks in order, env pairs exactly once, entrypoint, env map, published ports on 127.0.0.1, mounts, image and command vector must equal the configuration; further flags the tool passes on its own are tolerated, but no user-supplied string may be the token that is classified as such a flag. Non-trivial: >= 1 user string starts with '-' or contains '=', space or newline, and the configuration has >= 2 env pairs or >= 2 buildpacks; distinct = hash of the case.");
+    ctx.set_rule("build configurations (builder name, relative/absolute app path, with/without a preprocessor that adds a file, removes a file and makes a read-only fixture file writable and extends it in place, 0..5 buildpack references, 0..6 env pairs) and 0..2 container configurations (entrypoint, command vector, env, port sets, bind mounts incl. sources that exist on the host under a non-canonical spelling — via a symbolic link, with `..`) plus run_shell_command / shell_exec strings and an optional rebuild (in 6% the pack process is killed by a signal: still exactly one pack build), with strings weighted towards leading '-'/'--', option look-alikes (--rm, --env, -e, --, --name, --entrypoint=/bin/sh, --trust-builder=false), spaces, '=', quotes, newlines, shell metacharacters, Unicode and the empty string; the configuration objects are built by calling their setters in a generated order (also: app_dir set after the preprocessor on a config created for another fixture, envs() instead of env(), an entrypoint set twice); executed in a worker through TestRunner::build -> start_container / shell_exec / run_shell_command / rebuild with stand-in pack/docker recording argv bytes. Oracle: a reference parser of the pflag grammars of `pack build` (interspersed flags; value flags consume the next token) and `docker run|exec|logs|port|rm|rmi|volume rm` (run/exec stop flag parsing at the first positional) decodes every recorded command line; the decoded builder, app path (fixture itself, or a different directory whose content = fixture + the preprocessor's edits, fixture snapshot unchanged), buildpacks in order, env pairs exactly once, entrypoint, env map, published ports on 127.0.0.1, mounts, image and command vector must equal the configuration; further flags the tool passes on its own are tolerated, but no user-supplied string may be the token that is classified as such a flag. Non-trivial: >= 1 user string starts with '-' or contains '=', space or newline, and the configuration has >= 2 env pairs or >= 2 buildpacks; distinct = hash of the case.");
     ctx.assume("CSV metacharacters (',', '\"', CR, LF) in --mount paths and --buildpack values, empty buildpack references, env keys containing '=' are outside the domain; the grammar is the harness's transcription of pflag/docker CLI behaviour");
     let scratch = Scratch::new("c17");
     for (_p, v) in ctx.regress_files() {
@@ -561,7 +595,7 @@ fn bcfg_from_json(v: &Value) -> BCfg {
 pub fn replay(ctx: &Ctx, _sub: &str, case: &Value) {
     let scratch = Scratch::new("c17r");
     let b = &case["build"];
-    let mut c = Case { build: bcfg_from_json(&b["cfg"]), containers: vec![], run_shell: None, rebuild: None };
+    let mut c = Case { build: bcfg_from_json(&b["cfg"]), containers: vec![], run_shell: None, rebuild: None, pack_killed: case["pack_killed"].as_bool().unwrap_or(false) };
     for s in b["steps"].as_array().unwrap() {
         if let Some(sc) = s.get("start_container") {
             let cfg = &sc["cfg"];
